@@ -39,6 +39,9 @@ ShapeSent(kind, sym, neg) ==
                 \* the same operator shapes over NEGATED operands: a rule must treat its operands as opaque sentences
                 \* (rules that strip, merge or re-negate an operand differ exactly here)
                 [] kind = "opn"   -> IF ArityOf(sym) = 1 THEN <<"O", sym, <<NegS(cA)>>>> ELSE <<"O", sym, <<NegS(cA), NegS(cB)>>>>
+                \* ... and over a DOUBLY negated first operand (the second one plain): a rule that collapses, strips or
+                \* re-stacks negations of an operand is exact only where negation is an involution (it is not in P3, G3, ...)
+                [] kind = "opnn"  -> IF ArityOf(sym) = 1 THEN <<"O", sym, <<NegS(NegS(cA))>>>> ELSE <<"O", sym, <<NegS(NegS(cA)), cB>>>>
                 [] kind = "modal" -> <<"O", sym, <<cA>>>>
                 [] kind = "quant" -> <<"Q", sym, cx, Fof(cx)>>
                 \* the quantified sentence itself is the only place where its constant occurs
@@ -54,6 +57,7 @@ Inert(L, kind, k) ==
 Shapes(L) ==
   ({<<"op", sym, neg, 0>> : sym \in TruthFunctional, neg \in {0, 1}} \ {<<"op", "Negation", 0, 0>>})
   \cup {<<"opn", sym, neg, 0>> : sym \in TruthFunctional, neg \in {0, 1}}
+  \cup {<<"opnn", sym, neg, 0>> : sym \in TruthFunctional, neg \in {0, 1}}
   \cup (IF Logic(L).modal THEN {<<"modal", sym, neg, k>> : sym \in ModalOps, neg \in {0, 1}, k \in 0..2} ELSE {})
   \cup (IF Logic(L).quantified
         THEN {<<"quant", sym, neg, k>> : sym \in {"Existential", "Universal"}, neg \in {0, 1}, k \in 0..2}
@@ -101,7 +105,7 @@ Rels(cls, W, Rb, wn) ==
 (***************************************************************************)
 \* the cells whose values are enumerated: <<world, literal sentence>>
 Cells(c, W, C) ==
-  CASE c.kind \in {"op", "opn"} -> {<<IF c.b0[1].w < 0 THEN 0 ELSE c.b0[1].w, a>> : a \in {cA, cB}}
+  CASE c.kind \in {"op", "opn", "opnn"} -> {<<IF c.b0[1].w < 0 THEN 0 ELSE c.b0[1].w, a>> : a \in {cA, cB}}
     [] c.kind = "modal" -> {<<w, cA>> : w \in W}
     [] c.kind \in {"quant", "quantc"} -> {<<IF c.b0[1].w < 0 THEN 0 ELSE c.b0[1].w, Fof(p)>> : p \in C}
 
@@ -203,7 +207,7 @@ Fail(c, clause) == [id |-> c.id, logic |-> c.logic, kind |-> c.kind, sym |-> c.s
 
 Failures(c) ==
   IF c.err # "" THEN <<Fail(c, "Raised")>>
-  ELSE IF c.norule = 1 /\ c.kind \in {"op", "opn"} THEN <<Fail(c, "MissingRule")>>
+  ELSE IF c.norule = 1 /\ c.kind \in {"op", "opn", "opnn"} THEN <<Fail(c, "MissingRule")>>
   ELSE IF ~NoFlags(c) THEN <<Fail(c, "UnexpectedFlagNode")>>
   ELSE (IF StaysAtWorld(c) THEN <<>> ELSE <<Fail(c, "StaysAtWorld")>>)
        \o (IF Sound(c) THEN <<>> ELSE <<Fail(c, "Sound")>>)
